@@ -587,6 +587,20 @@ def const_permutation(repo: Repo, chk: Check) -> None:
             chk.ok("C12.const-permutation", key, s.where(), "the data is stored through the layout's address enumeration (scatter)")
             continue
         if not rt:
+            # np.moveaxis(x, src, dst) puts source axis src[k] AT position dst[k]; with src the identity (`range(..)`) and dst the step order that is
+            # the INVERSE of transpose(order) (right only for orders that are their own inverse); with dst the identity it is transpose(src)
+            mv = norm.find(T("np.moveaxis($v.reshape($b), $src, $dst)"), cone) or norm.find(T("numpy.moveaxis($v.reshape($b), $src, $dst)"), cone)
+            if mv:
+                _, mm = mv[0]
+                ident = lambda e: isinstance(norm.primary(e), ast.Call) and callee_name(norm.primary(e)) in ("range", "arange") and not norm.contains(e, T("$s.step"))  # noqa: E731
+                if ident(mm["src"]) and norm.contains(mm["dst"], T("$s.step")):
+                    chk.bad("C12.const-permutation", key, s.where(),
+                            f"the new constant is `{ast.unparse(mv[0][0])[:100]}`: moveaxis sends tile dimension k TO position order[k], the inverse of "
+                            "transposing INTO step order; for a layout whose step order is a 3-cycle ([2,2,2] with steps 2,4,1) elements land at the wrong addresses")
+                    continue
+                if ident(mm["dst"]) and norm.contains(mm["src"], T("$s.step")):
+                    rt = [(mv[0][0], {"v": mm["v"], "b": mm["b"], "o": mm["src"]})]
+        if not rt:
             raise AnalysisError(f"{s.where()}: the permutation applied to the constant data is not recognised")
         _, m = rt[0]
         b_ok = norm.contains(m["b"], T("$s.bound")) and depends_on(m["b"], f"{dl}.data")
